@@ -71,7 +71,7 @@ def s1(ctx, rep):
     a0, a1 = (U(argn(call, 0)), U(argn(call, 1))) if len(call.args) >= 2 else ("?", "?")
     rd = [U(d) for d in local_defs(f, a0) if not isinstance(d, tuple)]
     pd = [d for d in local_defs(f, a1)]
-    args_ok = bool(loopv) and loopv[0] in rd and any((isinstance(d, tuple) and U(d[1]) == hit) or (not isinstance(d, tuple) and hit and hit in U(d)) for d in pd)
+    args_ok = bool(loopv) and (loopv[0] in rd or loopv[0] == a0) and any((isinstance(d, tuple) and U(d[1]) == hit) or (not isinstance(d, tuple) and hit and hit in U(d)) for d in pd)
     rep.put(not viol and args_ok, "S1", "must_precede", "PromotionRungSystem.on_task_schedule: _mark_as_promoted(rung, pos) ≺ returning the promotion",
             f, call, "", "a trial can be returned for promotion without being marked as promoted: it is promoted again from the same rung")
     m = P.method("PromotionRungSystem", "_mark_as_promoted")
@@ -98,7 +98,7 @@ def s1(ctx, rep):
             # resume_from: the level of the rung where the hit was found; milestone: the level of the rung scanned before it
             lv = vars_assigned_from(f, lambda v: bool(loopv) and U(v) == f"{loopv[0]}.level")
             rf, ms_ = U(d.get("resume_from")), U(d.get("milestone"))
-            ok = bool(lv) and lv[0] in [U(x) for x in local_defs(f, rf) if not isinstance(x, tuple)] and \
+            ok = bool(lv) and (rf == lv[0] or lv[0] in [U(x) for x in local_defs(f, rf) if not isinstance(x, tuple)]) and \
                 lv[0] in [U(x) for x in local_defs(f, ms_) if not isinstance(x, tuple)] and \
                 "self._max_t" in [U(x) for x in local_defs(f, ms_) if not isinstance(x, tuple)]
     rep.put(ok, "S1", "agreement", "PromotionRungSystem.on_task_schedule: returns {trial_id, resume_from: rung level, milestone: next level}", f, None, "")
@@ -204,7 +204,18 @@ def s3(ctx, rep):
     f = P.method("PromotionRungSystem", "on_task_report")
     cfg = cfg_of(f)
     rv = vars_assigned_from(f, lambda v: isinstance(v, ast.Subscript) and "_resource_attr" in U(v.slice))
-    mv = vars_assigned_from(f, lambda v: isinstance(v, ast.Subscript) and U(v.slice) == "'milestone'" and "_running" in U(v.value))
+    from ..engine import field_key, canon_text
+    # the milestone recorded for this run: field `milestone` of the running record (a dict entry or a record field, read directly or
+    # through a local holding the record)
+    is_ms = lambda v: field_key(v) is not None and field_key(v)[1] == "milestone" and "_running" in canon_text(f, field_key(v)[0])
+    mv = vars_assigned_from(f, is_ms)
+    from .common import unpacked_field
+    unp = {}
+    for nm_ in sorted({x.id for x in ast.walk(f.node) if isinstance(x, ast.Name)}):
+        uf = unpacked_field(ctx, f, nm_)
+        if uf is not None and uf[1] == "milestone" and "_running" in canon_text(f, uf[0]):
+            unp[nm_] = uf
+    mv = mv + [n_ for n_ in unp if n_ not in mv]
     if len(rv) != 1 or len(mv) != 1:
         raise AnchorError("PromotionRungSystem.on_task_report: resource / milestone variables not identified")
     rv, mv = rv[0], mv[0]
@@ -228,7 +239,8 @@ def s3(ctx, rep):
     rep.put(ok, "S3", "agreement", "PromotionRungSystem.on_task_report: task_continues == not milestone_reached", f, None, "",
             "a trial does not pause exactly when it reaches its milestone")
     ms = [d_ for d_ in local_defs(f, mv) if not isinstance(d_, tuple)]
-    ok = len(ms) == 1 and U(ms[0]) == "self._running[trial_id]['milestone']"
+    ok = (len(ms) == 1 and is_ms(ms[0]) and canon_text(f, field_key(ms[0])[0]) == "self._running[trial_id]") or \
+        (mv in unp and canon_text(f, unp[mv][0]) == "self._running[trial_id]")
     rep.put(ok, "S3", "agreement", "PromotionRungSystem.on_task_report: the milestone is the one recorded for this run of the trial", f, None, "")
 
 
@@ -418,7 +430,9 @@ def s2b(ctx, rep):
                   [("trial_id is not None", lambda a: a[0] == "is" and a[3] is False and a[2] == "None")],
                   "marking without a candidate (or a candidate is returned without being marked: it can be promoted twice)")
     cg = cfg_of(g)
-    brk = [n.id for n in cg.nodes if n.kind == "stmt" and isinstance(n.ast, ast.Break)]
+    # the statements that leave the scan early: a break, or a return from inside the loop
+    in_loop = {id(s) for l in cg.nodes if l.kind == "for" for s in stmts_in(l.ast.body)}
+    brk = [n.id for n in cg.nodes if n.kind == "stmt" and (isinstance(n.ast, ast.Break) or (isinstance(n.ast, ast.Return) and id(n.ast) in in_loop))]
     require_guard(ctx, rep, "S4", g, "PromotionRungSystem.on_task_schedule: the scan over rungs ends | a promotable trial was found", brk,
                   [("result is not None", lambda a: a[0] == "is" and a[3] is False and a[2] == "None")],
                   "the scan stops at the first rung although nothing can be promoted there (lower rungs are never looked at)")
